@@ -14,7 +14,7 @@ from ..common import Run
 from ..hdl.harness import run_configs, Refused
 
 PROP = "C19"
-LEVEL = "other"
+LEVEL = "exploration"
 CLAUSES = ["elaborates", "terminates", "repeatable", "metadata_kept"]
 
 
